@@ -41,6 +41,16 @@ CHECKS = {
             "re-opened index must agree as well.",
             "Key discipline of the statement enforced by construction; delete queries exclude FuzzyTerm; add_field/remove_field not exercised in this check (C06 covers removed fields).",
             "DESIGN.md section 2 C07"),
+    "C08": ("exploration",
+            "property-based testing (Hypothesis): write/read round trips per column type and per generated document through generated storage configurations",
+            "column: every column type with a generated sparse docnum->value map is written and read back (RAM, file mmap, file no-mmap; non-zero base offset); each row "
+            "must return the value or the default, iteration must agree; RefBytes unique counts straddle 255/256/257 (thorough: 65535/65536/65537), VarBytes totals straddle "
+            "2^15/2^16 with and without stored offsets. index: generated documents with arbitrary field subsets and boundary values (non-BMP text, int limits, +-0.0/inf floats, "
+            "Decimals, microsecond datetimes, booleans, arbitrary picklable objects, _stored_ override) through 1-3 commits, merge/optimize, compound/loose, mmap on/off, "
+            "copy_to_ram: stored fields, Hit values and column values must be those supplied, unsupplied ones absent/default. bulk: one segment whose column streams exceed the "
+            "32 KiB spill buffer several times. rejected: a failing add_document must not leak into the next document (recorded finding for postings/columns/lengths).",
+            "Offsets beyond 2^31 not generated. CompressedBlockColumn (experimental, unused) is a recorded finding and kept out of the generated types. Float columns compared by value at the column layer.",
+            "DESIGN.md section 2 C08"),
     "C09": ("exploration",
             "property-based testing (Hypothesis): reference scorer re-derived from the corpus model (leaf layer) + compositional oracle over sub-query scores (composition layer)",
             "Leaf layer: on generated deletion-free indexes every Term hit score under BM25F (B, K1, per-field B), TF_IDF, Frequency, PL2, DFree, MultiWeighting and "
